@@ -49,12 +49,15 @@ claim('C20', 'verus',
       'DESIGN.md §4 C20')
 
 claim('C16', 'verus',
-      'contract-based deductive verification (Verus) of the real parser event-accounting functions, extracted mechanically on every run',
-      'Clause decided (the listed mechanism): every lexed token, trivia included, is advanced exactly once. The 14 Parser functions that touch events/leading/token_idx '
+      'contract-based deductive verification (Verus) of the real lexer and of the real parser event-accounting functions, extracted mechanically on every run',
+      'Clauses decided: (1) the lexer cuts every text into consecutive non-empty tokens on character boundaries, starting at byte 0 and ending at the end of the text, so concatenating the token texts reproduces the source byte for byte '
+      '(lex, read_token and all 24 cursor/reader functions of dora-parser/src/lexer.rs under contract; partition postcondition + theorem; termination of every loop; every unwrap/expect/unreachable!() inside proved safe); '
+      '(2) every lexed token, trivia included, is advanced exactly once: the 14 Parser functions that touch events/leading/token_idx '
       '(raw_advance, advance, skip_trivia, advance_by_*_trivia, open, close, current/nth/is_eof, parse_file) carry Verus contracts around one accounting invariant; parse_file ensures '
       '#Advance events == #tokens - 1 (the EOF sentinel) and leading == 0, for all token lists with no bound; the internal `unreachable!()` arms are proved unreachable. '
       'The ~150 grammar functions are covered by an assumed contract plus a syntactic frame scan. A replay runner parses generated texts with the real crate and checks the tree text byte for byte.',
-      'Trusted: Verus/Z3, vstd, rewrites N1-N8, the ASSUMED contract of parse_element (frame scan is a scan, not a proof), lexer output shape. Not decided: lexer partition, build_tree, error spans, re-parse equality.',
+      'Trusted: Verus/Z3, vstd, rewrites N1-N8, the ASSUMED contract of parse_element (frame scan is a scan, not a proof), ASSUMED contracts of the &str cursor primitives and std character classes (evidence.trusted_base). '
+      'Not decided: token kinds, build_tree, error spans, re-parse equality.',
       'DESIGN.md §4 C16')
 
 claim('C10', 'kani',
